@@ -314,6 +314,9 @@ Script(s) ==
   IN Rep(VA1, n) \o VA1 \o <<<<"R", 1>>>> \o Rep(VA1, h)
      \o (IF Cloneable(s) THEN <<<<"C", 1>>>> \o Rep(VA2, n - h) \o VA2 \o <<<<"R", 2>>>> \o VA2 ELSE <<>>)
      \o VA1
+     \* read-then-reset probe: a value read at a position > 0 and NOT followed by an advance, then reset, then read
+     \* again (a source that caches the value it handed out must not serve it after the reset; seed C19-10)
+     \o <<<<"R", 1>>>> \o Rep(VA1, h) \o <<<<"V", 1>>, <<"R", 1>>, <<"V", 1>>, <<"A", 1>>, <<"V", 1>>>>
      \o (IF Consumable(s) THEN <<<<"R", 1>>>> \o Rep(<<<<"X", 1>>>>, n + 1) ELSE <<>>)
 
 (* undecided description: walk, reset, the same walk, clone of the reset source, the same walk *)
